@@ -19,6 +19,7 @@ OBLIGATIONS = [
     "Pkgcore.C23.reset_then_harden",
     "Pkgcore.C23.reset_after_fixers_counterexample",
     "Pkgcore.C23.ebuild_engine_premerge_hardens",
+    "Pkgcore.C23.outcome_independent_of_other_entries",
     "Pkgcore.C23.spec_checker_sound",
 ]
 TRUSTED = [
@@ -38,7 +39,8 @@ ASSUMPTIONS = [
     "also registers instances with a distinct build uid/gid through the public register() API)",
 ]
 RULE = ("[also: engines assembled the way the ebuild format does it — default plugins with real build ids, format triggers incl. preinst_contents_reset, domain triggers — and "
-        "runs in which an unrelated pre_merge trigger of priority 5/20/49/60 raises a suppressed exception] contents sets of 0-9 entries of the five fs classes with distinct locations; modes drawn from all 4096 permission-bit combinations (biased towards set-id and "
+        "runs in which an unrelated pre_merge trigger of priority 5/20/49/60 raises a suppressed exception; file entries that are further names of one inode "
+        "(hardlinks: shared st_dev/st_ino, data, mtime; mostly shared, sometimes differing mode/owner) and file entries without st_dev/st_ino] contents sets of 0-9 entries of the five fs classes with distinct locations; modes drawn from all 4096 permission-bit combinations (biased towards set-id and "
         "world-writable ones) optionally with the S_IF* type bits a livefs scan records; uid/gid from {0, build, other}; run through the pre_merge hook of a real "
         "MergeEngine.install / MergeEngine.replace (default plugins + explicitly registered instances, with and without an observer, with and without an offset) or, "
         "for a quarter of the cases, through the trigger objects directly; non-trivial = at least one entry is changed by the stage and at least one is not")
@@ -185,14 +187,25 @@ def gen_case(rng, idx):
     entries = []
     for i in range(n):
         kind = rng.choice([0, 0, 0, 1, 1, 2, 3, 4])
-        entries.append({"kind": kind, "loc": names[i], "mode": gen_mode(rng, kind), "uid": rng.choice(ids), "gid": rng.choice(ids), "payload": i + 1})
+        e = {"kind": kind, "loc": names[i], "mode": gen_mode(rng, kind), "uid": rng.choice(ids), "gid": rng.choice(ids), "payload": i + 1}
+        files = [x for x in entries if x["kind"] == 0]
+        if kind == 0 and files and rng.random() < 0.45:
+            # a further name of an earlier file (hardlink: same data, st_dev/st_ino, mtime -> same payload).  On disk the names of one inode share
+            # mode and owner; a contents set (binpkg, vdb, edited by an earlier trigger) need not, so now and then they differ
+            first = rng.choice(files)
+            e["payload"] = first["payload"]
+            if rng.random() < 0.8:
+                e["mode"], e["uid"], e["gid"] = first["mode"], first["uid"], first["gid"]
+        entries.append(e)
     how = rng.choice(["install", "install_noplug", "replace", "direct", "ebuild", "ebuild", "ebuild_replace"])
     good_uid = rng.choice([0, 0, 0, 7])
     good_gid = rng.choice([0, 0, 0, 7])
     return {"entries": entries, "how": how, "observer": rng.random() < 0.5, "offset": rng.random() < 0.7,
             "fix_perms": rng.random() < 0.3, "bu": BUILD_UID, "ru": good_uid, "bg": BUILD_GID, "rg": good_gid,
             "extra_first": rng.random() < 0.5, "preinst": rng.random() < 0.6,
-            "fault": rng.choice([None, None, None, 5, 20, 49, 60])}
+            "fault": rng.choice([None, None, None, 5, 20, 49, 60]),
+            # where the file entries' st_dev/st_ino come from: a livefs scan of the image (numbers), or a source without them (binpkg / tar: None)
+            "inodes": rng.choice(["scan", "scan", "scan", "none"])}
 
 
 def E(kind, loc, mode, uid, gid, payload):
@@ -200,6 +213,17 @@ def E(kind, loc, mode, uid, gid, payload):
 
 
 CORPUS = [
+    # one program installed under several hardlinked names (gzip/gunzip/zcat style) by the build user: every name is an entry of its own
+    {"entries": [E(0, "/usr/bin/zip-tool", 0o100755, BUILD_UID, BUILD_GID, 1), E(0, "/usr/bin/unzip-tool", 0o100755, BUILD_UID, BUILD_GID, 1),
+                 E(0, "/usr/bin/zcat-tool", 0o100755, BUILD_UID, BUILD_GID, 1), E(2, "/usr/bin/zt", 0o120777, BUILD_UID, BUILD_GID, 2),
+                 E(0, "/usr/bin/lone", 0o102757, BUILD_UID, BUILD_GID, 3), E(1, "/var/spool/tool", 0o42777, BUILD_UID, BUILD_GID, 4), E(0, "/usr/bin/sane", 0o104755, 0, 0, 5)],
+     "how": "install", "observer": True, "offset": True, "fix_perms": False, "bu": BUILD_UID, "ru": 0, "bg": BUILD_GID, "rg": 0, "extra_first": False, "preinst": False, "fault": None,
+     "inodes": "scan"},
+    {"entries": [E(0, "/bin/a", 0o6777, BUILD_UID, 7, 1), E(0, "/bin/b", 0o6777, 7, BUILD_GID, 1), E(0, "/bin/c", 0o4757, BUILD_UID, BUILD_GID, 1), E(0, "/bin/d", 0o644, BUILD_UID, BUILD_GID, 2)],
+     "how": "ebuild", "observer": False, "offset": True, "fix_perms": False, "bu": BUILD_UID, "ru": 0, "bg": BUILD_GID, "rg": 0, "extra_first": False, "preinst": True, "fault": None,
+     "inodes": "scan"},
+    {"entries": [E(0, "/bin/a", 0o4757, BUILD_UID, BUILD_GID, 1), E(0, "/bin/b", 0o4757, BUILD_UID, BUILD_GID, 1)],
+     "how": "direct", "observer": False, "offset": False, "fix_perms": True, "bu": BUILD_UID, "ru": 0, "bg": BUILD_GID, "rg": 0, "extra_first": True, "inodes": "none"},
     # the engine as the ebuild format assembles it, package with pkg_preinst: what is merged is the re-scanned image
     {"entries": [E(0, "/bin/su", 0o4757, BUILD_UID, BUILD_GID, 1), E(1, "/etc", 0o6777, BUILD_UID, 0, 2), E(2, "/l", 0o777, BUILD_UID, BUILD_GID, 3), E(0, "/ok", 0o644, 0, 0, 4)],
      "how": "ebuild", "observer": True, "offset": True, "fix_perms": False, "bu": BUILD_UID, "ru": 0, "bg": BUILD_GID, "rg": 0, "extra_first": False, "preinst": True, "fault": None},
@@ -252,7 +276,9 @@ def run_impl(case, scratch, mods):
     for e in case["entries"]:
         kw = dict(mode=e["mode"], uid=e["uid"], gid=e["gid"], mtime=1000 + e["payload"], strict=False)
         if e["kind"] == 0:
-            o = fs.fsFile(e["loc"], data=data_source("data-%d" % e["payload"]), dev=3, inode=100 + e["payload"], **kw)
+            # entries with the same payload are names of one inode: same st_dev/st_ino, same mtime, same bytes (each name has its own data object, as a scan gives)
+            ino = dict(dev=3, inode=100 + e["payload"]) if case.get("inodes", "scan") == "scan" else dict(dev=None, inode=None)
+            o = fs.fsFile(e["loc"], data=data_source("data-%d" % e["payload"]), **ino, **kw)
         elif e["kind"] == 2:
             o = fs.fsSymlink(e["loc"], "target-%d" % e["payload"], **kw)
         elif e["kind"] == 3:
@@ -473,6 +499,13 @@ def run(ctx):
         if c["how"].startswith("ebuild") and c.get("preinst"):
             ctx.count("ebuild_with_preinst_contents_reset")
         ctx.count("observer_%s" % c["observer"])
+        ctx.count("file_inodes_%s" % c.get("inodes", "scan"))
+        pl = [e["payload"] for e in c["entries"] if e["kind"] == 0]
+        if len(pl) != len(set(pl)):
+            ctx.count("sets_with_hardlinked_names")
+            grp = [e for e in c["entries"] if e["kind"] == 0 and pl.count(e["payload"]) > 1]
+            if any(e["uid"] == c["bu"] or e["gid"] == c["bg"] for e in grp):
+                ctx.count("sets_with_build_owned_hardlinks")
         ctx.count("entries_%d" % min(len(c["entries"]), 9))
         for e in c["entries"]:
             ctx.count("kind_" + KIND_CLASSES[e["kind"]])
